@@ -15,8 +15,10 @@ m = {
         "add_only": True,
     },
     "engines": [
-        {"name": "pyvc", "path": "pyvc/", "serves_properties": sorted(registry.CLAIMED),
-         "kind_free_text": "verification-condition generator for the Python subset of /repo (ast -> symbolic execution against sidecar contracts -> z3/cvc5)"},
+        {"name": "pyvc", "path": "pyvc/", "serves_properties": sorted(k for k, v in registry.CLAIMED.items() if v["engine"] == "pyvc"),
+         "kind_free_text": "verification-condition generator for the Python subset of /repo (ast -> symbolic execution against sidecar contracts in specs/ -> z3/cvc5)"},
+        {"name": "tx", "path": "tx/", "serves_properties": sorted(k for k, v in registry.CLAIMED.items() if v["engine"] == "tx"),
+         "kind_free_text": "contract checker for the transpiler: real methods, real grammar rules and real passes executed by CPython on opaque (parametric) parts against class / rule / pass contracts; BASIC09 library read as text (signatures, bounded evaluator)"},
     ],
     "checks": [],
     "not_applicable": [],
@@ -33,7 +35,7 @@ for p in registry.PROPS:
         "thorough_cmd": "./check %s --tier thorough" % p,
         "evidence_file": "evidence/%s.json" % p,
         "replay_cmd_template": "./check %s --replay {path}" % p,
-        "engine": "pyvc",
+        "engine": c["engine"],
         "level_claimed": {"category": c.get("category", "proof"), "text": c["level_text"], "design_ref": c.get("design_ref", "DESIGN.md section 5, " + p)},
         "level_note": c["level_note"],
         "technique": c["technique"],
